@@ -56,20 +56,22 @@ def _alarm(signum, frame):
 
 
 def step(ctx, m, st, op, hist):
-    """one operation under a wall-clock guard: the queue code is pure Python (no SPI, no clock), so
+    """one operation under a CPU-time guard: the queue code is pure Python (no SPI, no clock), so
     a loop that never ends inside it (a dequeue() that does not shrink the queue, used by the move
-    constructor) can only be stopped from outside"""
+    constructor) can only be stopped from outside. The guard counts the CPU time this process has
+    consumed (ITIMER_VIRTUAL), not wall time: on a loaded machine a starved shard is not a verdict
+    (a wall-clock guard raised this alarm falsely during a seed sweep run beside other checks)"""
     import signal
-    signal.signal(signal.SIGALRM, _alarm)
-    signal.setitimer(signal.ITIMER_REAL, 10.0)
+    signal.signal(signal.SIGVTALRM, _alarm)
+    signal.setitimer(signal.ITIMER_VIRTUAL, 10.0)
     try:
         return _step(ctx, m, st, op, hist)
     except StepTimeout:
-        ctx.violation("operation-does-not-return", "operation %s did not return within 10 s of wall time "
+        ctx.violation("operation-does-not-return", "operation %s did not return within 10 s of CPU time "
                       "(history %r)" % (op, hist + [op]), {"ops": hist + [op]})
         return False
     finally:
-        signal.setitimer(signal.ITIMER_REAL, 0)
+        signal.setitimer(signal.ITIMER_VIRTUAL, 0)
 
 
 def _same(got, exp):
@@ -303,9 +305,9 @@ def _node_walks(ctx, m):
             ctr = 0
             hist = []
             import signal
-            signal.signal(signal.SIGALRM, _alarm)
+            signal.signal(signal.SIGVTALRM, _alarm)
             for _ in range(200):
-                signal.setitimer(signal.ITIMER_REAL, 10.0)  # cleared in the finally below
+                signal.setitimer(signal.ITIMER_VIRTUAL, 10.0)  # CPU time, not wall time; cleared in the finally below
                 r = rng.random()
                 if r < 0.45:
                     ctr += 1
@@ -352,11 +354,11 @@ def _node_walks(ctx, m):
             ctx.nontrivial(("nodewalk", ctx.shard, w))
         except StepTimeout:
             ctx.violation("operation-does-not-return/node", "a queue operation on the node did not return within 10 s "
-                          "of wall time (last operations %r)" % hist[-6:], {"ops": hist[-20:]})
+                          "of CPU time (last operations %r)" % hist[-6:], {"ops": hist[-20:]})
             return
         finally:
             import signal as _sg
-            _sg.setitimer(_sg.ITIMER_REAL, 0)
+            _sg.setitimer(_sg.ITIMER_VIRTUAL, 0)
             rig.close()
 
 
